@@ -11,7 +11,9 @@ if [ "$R" = "1" ]; then ORIG=/tmp/wtb_$P; TAG=$P-$K; else ORIG=/tmp/wtb${R}_$P; 
 SRC=$ORIG/seed_out
 WT=/tmp/sb_$TAG
 OUT=/verif/seeded/benign/$TAG
-[ -f $SRC/patch$K.diff ] || { echo "no patch $SRC/patch$K.diff"; exit 3; }
+# the agents' scratch worktrees are removed at the end of the session; the patch, the equivalence script
+# and the notes are kept under /verif/seeded/benign/<tag>/ and are enough for RECHECK_ONLY=1
+[ -f $SRC/patch$K.diff ] || [ -f $OUT/patch.diff ] || { echo "no patch $SRC/patch$K.diff"; exit 3; }
 PATCH=$SRC/patch$K.diff
 [ -f $OUT/patch.diff ] && PATCH=$OUT/patch.diff
 rm -rf $WT; git -C /repo worktree add -q --detach $WT HEAD || exit 3
@@ -32,7 +34,7 @@ fi
 mkdir -p $WT/chk
 ls /verif/sa/checks | sed -n 's/^\(c[0-9][0-9]\)\.py$/\1/p' | tr a-z A-Z | xargs -P 10 -I{} sh -c "cd /verif && timeout 900 /venv/bin/python sa/run.py {} --repo $WT --scratch > $WT/chk/{}.log 2>&1; echo \$? > $WT/chk/{}.rc"
 mkdir -p $OUT
-[ -f $OUT/patch.diff ] || cp $SRC/patch$K.diff $OUT/patch.diff; cp $SRC/equiv$K.py $OUT/equiv.py; cp $SRC/notes$K.md $OUT/notes.md 2>/dev/null
+[ -f $OUT/patch.diff ] || cp $SRC/patch$K.diff $OUT/patch.diff; cp $SRC/equiv$K.py $OUT/equiv.py 2>/dev/null; cp $SRC/notes$K.md $OUT/notes.md 2>/dev/null
 : > $OUT/checks.txt
 alarm=""; undec=""
 for f in $WT/chk/*.rc; do id=$(basename $f .rc); rc=$(cat $f);
